@@ -103,8 +103,10 @@ PROPS = {
             B("w_timer.cpp", "timer_thread", quick=10, thorough=150, oracles=["c07."] + RT_ALL),
             B("w_timer.cpp", "timer_unsafe", quick=5, thorough=60, oracles=["c07."] + RT_ALL),
             B("w_timer.cpp", "timer_thread", cfg="S17r", quick=5, thorough=60, oracles=["c07."] + RT_ALL),
-            B("w_io.cpp", "io_epoll", rt=("fdlayer", "uring"), quick=6, thorough=90, oracles=["c07."] + RT_LIVE),
-            B("w_io.cpp", "io_uring", rt=("fdlayer", "uring"), quick=6, thorough=90, oracles=["c07."] + RT_LIVE),
+            B("w_io.cpp", "io_epoll", rt=("fdlayer", "uring"), quick=6, thorough=90, oracles=["c07."] + RT_ALL),
+            B("w_io.cpp", "io_uring", rt=("fdlayer", "uring"), quick=6, thorough=90, oracles=["c07."] + RT_ALL),
+            B("w_io.cpp", "io_epoll", cfg="S17r", rt=("fdlayer", "uring"), quick=4, thorough=60, oracles=["c07."] + RT_ALL),
+            B("w_io.cpp", "io_uring", cfg="S17r", rt=("fdlayer", "uring"), quick=4, thorough=60, oracles=["c07."] + RT_ALL),
         ],
         level_text=("Seeded exploration over the real timed_single_thread_context and thread_unsafe_event_loop on a simulated clock: 1-10 timers "
                     "(schedule_at / schedule_after) with due times drawn from {past, now, equal pairs, near, 1 s, 1 h}, submitted from 1-3 threads "
